@@ -8,3 +8,6 @@ import (
 
 // engineStream wraps a writer as an output stream.
 func engineStream(w io.Writer) *engine.Stream { return engine.NewOutputTextStream(w) }
+
+// newVar returns a fresh unbound variable.
+func newVar() engine.Term { return engine.NewVariable() }
